@@ -67,16 +67,17 @@ def stepClient (c : Client) (toks : List String) : Option (Client × String) :=
 def stepClient2 (k : Client2) (toks : List String) : Option (Client2 × String) :=
   match toks with
   | ["CL", "blockwrite", id] => let r := k.step (.blockWrite (hex! id)); some (r.1, "ok")
+  | ["CL", "blockagent", id] => let r := k.step (.blockAgent (hex! id)); some (r.1, "ok")
   | ["CL", "tick", t] => let r := k.step (.l1 (.tick (nat! t))); some (r.1, showOuts r.2.2)
   | ["CL", "tick2", t] =>
     let r := k.step (.l1 (.tick (nat! t)))
     -- the script of blocking writes applies to this collector call only
-    let k' : Client2 := if r.1.susp.isEmpty then { r.1 with blockIds := [] } else r.1
+    let k' : Client2 := if r.1.susp.isEmpty then { r.1 with blockIds := [], blockAgentIds := [] } else r.1
     some (k', s!"{showOuts r.2.2} blocked={k'.susp.length}")
   | ["CL", "release", how] =>
     let isStart := (k.susp.head?.map (·.kind)) == some SuspKind.start
     let r := k.step (.release (how == "ok"))
-    let k' : Client2 := if r.1.susp.isEmpty then { r.1 with blockIds := [] } else r.1
+    let k' : Client2 := if r.1.susp.isEmpty then { r.1 with blockIds := [], blockAgentIds := [] } else r.1
     let pre := if isStart then s!"sret={showCErr r.2.1} " else ""
     some (k', s!"{pre}{showOuts r.2.2} blocked={k'.susp.length}")
   -- Start whose first write blocks: it returns at the next `release`
